@@ -284,6 +284,15 @@ func runC18(r *mc.Run) {
 			cases = append(cases, c18case{vp[0], vp[1], b})
 		}
 	}
+	if r.Thorough() {
+		for v := range vfaults {
+			for p := range pfaults {
+				for b := 0; b < nbits; b += 16 {
+					cases = append(cases, c18case{v, p, b})
+				}
+			}
+		}
+	}
 	rp0, _ := ref.ParseQuote(func() []byte { b, _ := baseParts().Bytes(); return b }())
 	_ = rp0
 	done := r.Parallel(len(cases), func(i int) {
